@@ -66,6 +66,9 @@ def gen_case(rng: random.Random, tier: str) -> dict:
     used_t = []
     for e in extra:
         f += f" + {e[0]}"
+    ctxk = rng.random() < 0.06
+    if ctxk:
+        f += " + kc"
     if rng.random() < 0.4 and n >= 8:
         v = rng.choice(nums)
         t = rng.choice(EXTRA_NUM).format(v=v)
@@ -94,7 +97,7 @@ def gen_case(rng: random.Random, tier: str) -> dict:
             if c["kind"] == "cat":
                 c["categories"] = sorted({v for v in c["values"] if v is not None}) or c["categories"][:1]
     caller = sorted(rng.sample(range(n), rng.randint(1, min(3, n)))) if rng.random() < 0.3 and n >= 6 and not used_t and not arrow else None  # (arrow: levels living only in dropped rows vanish, see above)
-    return {"frame": frame, "formula": f, "efr": rng.random() < 0.7, "arrow": arrow, "structured": structured, "caller": caller,
+    return {"ctxk": ctxk, "frame": frame, "formula": f, "efr": rng.random() < 0.7, "arrow": arrow, "structured": structured, "caller": caller,
             "sig": [sorted((sorted(factors[k]["kind"] for k in t["factors"]), bool(t["scale"])) for t in terms), used_t, nullpat]}
 
 
@@ -113,6 +116,7 @@ def judge(case) -> Outcome:
     df = make_frame(case["frame"])
     f = case["formula"]
     kw = {"ensure_full_rank": case["efr"]}
+    CTX = {"kc": 3.0} if case.get("ctxk") else {}  # a plain number from the caller's context used as a term
     tag = f"{f!r} efr={case['efr']} caller={case.get('caller')}"
 
     def dk():  # the caller's own drop set (a fresh one per call): an option like any other, on every entry point
@@ -120,7 +124,7 @@ def judge(case) -> Outcome:
 
     try:
         with quiet():
-            ref = model_matrix(f, df, output="numpy", context={}, **kw, **dk())
+            ref = model_matrix(f, df, output="numpy", context=CTX, **kw, **dk())
     except Exception as e:  # noqa: BLE001
         msg = str(e)
         from .c12 import VALIDATION_PHRASES
@@ -128,52 +132,56 @@ def judge(case) -> Outcome:
         if "ValueError" in msg and any(p in msg for p in VALIDATION_PHRASES):  # parameters a transform documents as invalid for this data
             out.decided = False
             return out
+        if case.get("ctxk") and any(p in msg for p in ("must have the same shape", "incompatible dimensions", "No implementation of `drop_rows()`", "dimension mismatch", "inconsistent shapes")):
+            # finding K12: a factor that evaluates to a plain number is broadcast by the pandas output only
+            out.fail("c05.scalar_context_factor", f"{tag}: numpy output with the context number `kc` as a term: {type(e).__name__}: {msg[:120]}")
+            return out
         out.fail("c05.reference_raised", f"{tag}: {type(e).__name__}: {msg[:200]}")
         return out
     refs = [(dense(p), colnames(p)) for p in flat(ref)]
     try:
         with quiet():
-            ref_index = [list(p.index) for p in flat(model_matrix(f, df, output="pandas", context={}, **kw, **dk()))]
+            ref_index = [list(p.index) for p in flat(model_matrix(f, df, output="pandas", context=CTX, **kw, **dk()))]
     except Exception:  # noqa: BLE001  (judged as a path below)
         ref_index = None
     paths = []
     for output in ("pandas", "numpy", "sparse"):
-        paths.append((f"pandas/model_matrix/{output}", lambda o=output: model_matrix(f, df, output=o, context={}, **kw, **dk())))
-        paths.append((f"pandas/Formula/{output}", lambda o=output: Formula(f).get_model_matrix(df, output=o, context={}, **kw, **dk())))
-        paths.append((f"pandas/ModelSpec/{output}", lambda o=output: ModelSpec.from_spec(Formula(f), output=o, **kw).get_model_matrix(df, context={}, **dk())))
-        paths.append((f"pandas/materializer/{output}", lambda o=output: PandasMaterializer(df, context={}).get_model_matrix(f, output=o, **kw, **dk())))
+        paths.append((f"pandas/model_matrix/{output}", lambda o=output: model_matrix(f, df, output=o, context=CTX, **kw, **dk())))
+        paths.append((f"pandas/Formula/{output}", lambda o=output: Formula(f).get_model_matrix(df, output=o, context=CTX, **kw, **dk())))
+        paths.append((f"pandas/ModelSpec/{output}", lambda o=output: ModelSpec.from_spec(Formula(f), output=o, **kw).get_model_matrix(df, context=CTX, **dk())))
+        paths.append((f"pandas/materializer/{output}", lambda o=output: PandasMaterializer(df, context=CTX).get_model_matrix(f, output=o, **kw, **dk())))
 
         def reused(o=output):  # one materializer object serving a second, different request
-            mat = PandasMaterializer(df, context={})
+            mat = PandasMaterializer(df, context=CTX)
             mat.get_model_matrix(f, output={"pandas": "sparse", "numpy": "pandas", "sparse": "numpy"}[o], **kw)
             return mat.get_model_matrix(f, output=o, **kw, **dk())
 
         paths.append((f"pandas/materializer_reused/{output}", reused))
     # reuse of the reference's (possibly structured) spec, with and without option overrides
     rspec = ref.model_spec
-    paths.append(("pandas/spec_reuse/numpy", lambda: rspec.get_model_matrix(df, **dk())))
+    paths.append(("pandas/spec_reuse/numpy", lambda: rspec.get_model_matrix(df, context=CTX, **dk())))
     for output in ("pandas", "numpy", "sparse"):
-        paths.append((f"pandas/spec_reuse_override/{output}", lambda o=output: rspec.get_model_matrix(df, output=o, **dk())))
-        paths.append((f"pandas/model_matrix(spec)/{output}", lambda o=output: model_matrix(rspec, df, output=o, **dk())))
+        paths.append((f"pandas/spec_reuse_override/{output}", lambda o=output: rspec.get_model_matrix(df, output=o, context=CTX, **dk())))
+        paths.append((f"pandas/model_matrix(spec)/{output}", lambda o=output: model_matrix(rspec, df, output=o, context=CTX, **dk())))
         # a model matrix (or structure of them) handed in as the spec, with an option override
-        paths.append((f"pandas/model_matrix(matrix)/{output}", lambda o=output: model_matrix(ref, df, output=o, **dk())))
-        paths.append((f"pandas/materializer(matrix)/{output}", lambda o=output: PandasMaterializer(df).get_model_matrix(ref, output=o, **dk())))
+        paths.append((f"pandas/model_matrix(matrix)/{output}", lambda o=output: model_matrix(ref, df, output=o, context=CTX, **dk())))
+        paths.append((f"pandas/materializer(matrix)/{output}", lambda o=output: PandasMaterializer(df, context=CTX).get_model_matrix(ref, output=o, **dk())))
         # the same columns handed over as a plain mapping name -> column
-        paths.append((f"dict/model_matrix/{output}", lambda o=output: model_matrix(f, {c: df[c] for c in df.columns}, output=o, context={}, **kw, **dk())))
+        paths.append((f"dict/model_matrix/{output}", lambda o=output: model_matrix(f, {c: df[c] for c in df.columns}, output=o, context=CTX, **kw, **dk())))
     # the frame reaches the library inside a transparent wrapper (a pandas-output model matrix used as data for a second stage)
     from formulaic.model_matrix import ModelMatrix
 
     for output in ("pandas", "numpy"):
-        paths.append((f"pandas/wrapped_frame/model_matrix/{output}", lambda o=output: model_matrix(f, ModelMatrix(df), output=o, context={}, **kw, **dk())))
-    paths.append(("pandas/wrapped_frame/Formula/pandas", lambda: Formula(f).get_model_matrix(ModelMatrix(df), output="pandas", context={}, **kw, **dk())))
-    paths.append(("dict/Formula/numpy", lambda: Formula(f).get_model_matrix({c: df[c] for c in df.columns}, output="numpy", context={}, **kw, **dk())))
+        paths.append((f"pandas/wrapped_frame/model_matrix/{output}", lambda o=output: model_matrix(f, ModelMatrix(df), output=o, context=CTX, **kw, **dk())))
+    paths.append(("pandas/wrapped_frame/Formula/pandas", lambda: Formula(f).get_model_matrix(ModelMatrix(df), output="pandas", context=CTX, **kw, **dk())))
+    paths.append(("dict/Formula/numpy", lambda: Formula(f).get_model_matrix({c: df[c] for c in df.columns}, output="numpy", context=CTX, **kw, **dk())))
     for output in ("pandas", "numpy", "sparse", "narwhals"):
-        paths.append((f"narwhals(pandas)/model_matrix/{output}", lambda o=output: model_matrix(f, df, output=o, materializer="narwhals", context={}, **kw, **dk())))
+        paths.append((f"narwhals(pandas)/model_matrix/{output}", lambda o=output: model_matrix(f, df, output=o, materializer="narwhals", context=CTX, **kw, **dk())))
     if case["arrow"]:
         table = pa.Table.from_pandas(df, preserve_index=False)
         for output in ("pandas", "numpy", "sparse", "narwhals"):
-            paths.append((f"narwhals(arrow)/model_matrix/{output}", lambda o=output: model_matrix(f, table, output=o, context={}, **kw, **dk())))
-        paths.append(("narwhals(arrow)/Formula/numpy", lambda: Formula(f).get_model_matrix(table, output="numpy", context={}, **kw, **dk())))
+            paths.append((f"narwhals(arrow)/model_matrix/{output}", lambda o=output: model_matrix(f, table, output=o, context=CTX, **kw, **dk())))
+        paths.append(("narwhals(arrow)/Formula/numpy", lambda: Formula(f).get_model_matrix(table, output="numpy", context=CTX, **kw, **dk())))
     for name, fn in paths:
         try:
             with quiet():
